@@ -222,6 +222,20 @@ def discharge(ob, tier='quick'):
         ob.status, ob.backend = 'refuted', 'cvc5'
     else:
         ob.status, ob.backend = 'unknown', 'z3+cvc5'
+        if z3.is_false(ob.goal):
+            # a discipline obligation (missing timeout scope, yield inside a function declared atomic, write
+            # outside every frame): violated iff the path is reachable.  The executor only follows branches whose
+            # quantifier-free condition is satisfiable; confirm that once more and report the path as reachable.
+            s = _solver(Z3_TIMEOUT_MS, True)
+            for p in ob.pc:
+                if not _has_q(p):
+                    s.add(p)
+            if s.check() == z3.sat:
+                ob.status, ob.backend = 'refuted', 'z3 (path reachable: quantifier-free path condition satisfiable)'
+                try:
+                    ob.model = s.model()
+                except Exception:
+                    ob.model = None
     ob.time = time.time() - t0
     return ob
 
